@@ -649,7 +649,12 @@ static int op_init(char **t, int nt) {
     uint8_t key[32];
     if (nt != 3 || !parse_hex_exact(t[2], key, 32)) return -1;
     a.kind = 1;
-    a.p = input_flush(&AR_CV, key, 32);
+    /* the key at every address modulo 8: flush against the guard page (slack 0) or 1..7 bytes before it */
+    uint8_t padded[40];
+    size_t slack = key[1] % 8;
+    memset(padded, 0, sizeof padded);
+    memcpy(padded, key, 32);
+    a.p = input_flush(&AR_CV, padded, 32 + slack);
     if (!a.p) return -1;
   } else if (strcmp(t[1], "derive") == 0) {
     if (nt != 3) return -1;
